@@ -18,7 +18,10 @@ func zzDexWorld(sm *StateMachine) {
 	total := zzWorld3(sm)
 	orderAmt, depAmt, liq := zzN64("pendingOrder"), zzN64("pendingDeposit"), zzN64("liquidity")
 	zzAssume(orderAmt >= 1 && depAmt >= 1 && liq < 1<<60 && orderAmt < 1<<60 && depAmt < 1<<60 && total < 1<<62)
-	batch := &lib.DexBatch{Committee: 2,
+	// PoolSize is stored explicitly: the real GetDexBatch unmarshals INTO a batch pre-filled with the
+	// pool's balance (protobuf merge keeps it when the stored field is absent), the boxing model of
+	// Unmarshal replaces the whole value - storing the balance makes both read the same batch.
+	batch := &lib.DexBatch{Committee: 2, PoolSize: liq,
 		Orders:   []*lib.DexLimitOrder{{AmountForSale: orderAmt, RequestedAmount: 5, Address: zzAddr(0), OrderId: zzOrderId}},
 		Deposits: []*lib.DexLiquidityDeposit{{Address: zzAddr(1), Amount: depAmt, OrderId: zzOrderId}}}
 	if sm.SetDexBatch(KeyForNextBatch(2), batch) != nil {
